@@ -112,10 +112,21 @@ void harness (void) {
   page_size = H_PSZ;
   VARR_CREATE (code_holder_t, code_holders, ctx->alloc, 4);
   for (int k = 0; k < 48; k += 8) { uint64_t w = nd (); memcpy (h_code + k, &w, 8); }
+#ifdef H_OPSEQ /* operation kinds fixed by the driver (configuration), lengths / offsets / addresses symbolic */
+  static const unsigned h_opseq[H_NOPS] = {H_OPSEQ};
+  unsigned nops = H_NOPS;
+  (void) nd ();
+#else
   unsigned nops = (unsigned) nd_below (H_NOPS + 1);
+#endif
   for (unsigned i = 0; i < H_NOPS; i++) {
     if (i >= nops) break;
+#ifdef H_OPSEQ
+    unsigned op = h_opseq[i];
+    (void) nd ();
+#else
     unsigned op = (unsigned) nd_below (4);
+#endif
     size_t len = nd_below (49);
     if (op == 0) { /* publish */
       uint8_t *res = _MIR_publish_code (ctx, h_code, len);
@@ -125,7 +136,9 @@ void harness (void) {
       for (int j = 0; j < H_NOPS; j++) if (j < h_npub && len != 0 && h_pub[j].len != 0)
         H_ASSERT (res >= h_pub[j].addr + h_pub[j].len || res + len <= h_pub[j].addr, "published regions never overlap");
       h_pub[h_npub].addr = res; h_pub[h_npub].len = len; h_npub++;
+#ifndef H_OPSEQ
       H_WITNESS ("publish");
+#endif
     } else if (op == 1) { /* publish by address: only succeeds at the current free position */
       uint8_t *want = _MIR_get_new_code_addr (ctx, len);
       int exact = nd_bool ();
@@ -136,7 +149,9 @@ void harness (void) {
         for (int j = 0; j < H_NOPS; j++) if (j < h_npub && len != 0 && h_pub[j].len != 0)
           H_ASSERT (res >= h_pub[j].addr + h_pub[j].len || res + len <= h_pub[j].addr, "published regions never overlap");
         h_pub[h_npub].addr = res; h_pub[h_npub].len = len; h_npub++;
+#ifndef H_OPSEQ
         H_WITNESS ("publish by addr");
+#endif
       }
     } else if (op == 2) { /* change code inside an already published region */
       H_ASSUME (h_npub > 0);
@@ -144,7 +159,7 @@ void harness (void) {
       size_t off = nd_below (48); H_ASSUME (off < h_pub[j].len && len >= 1 && off + len <= h_pub[j].len);
       _MIR_change_code (ctx, h_pub[j].addr + off, h_code, len);
       for (size_t b = 0; b < 48; b++) if (b < len) H_ASSERT (h_shadow[h_a2off (h_pub[j].addr) + off + b] == h_code[b], "changed bytes equal the code given");
-#if H_NOPS >= 2
+#if H_NOPS >= 2 && !defined(H_OPSEQ)
       H_WITNESS ("change");
 #endif
     } else { /* update 1-2 pointer-sized locations */
@@ -157,7 +172,7 @@ void harness (void) {
       H_ASSUME (rel[0].offset + 8 <= h_pub[j].len && rel[1].offset + 8 <= h_pub[j].len);
       _MIR_update_code_arr (ctx, h_pub[j].addr, nloc, rel);
       { void *v; memcpy (&v, &h_shadow[h_a2off (h_pub[j].addr) + rel[nloc - 1].offset], 8); H_ASSERT (v == rel[nloc - 1].value, "updated location holds the value"); }
-#if H_NOPS >= 2
+#if H_NOPS >= 2 && !defined(H_OPSEQ)
       H_WITNESS ("update");
 #endif
     }
